@@ -24,6 +24,35 @@ class CFG:
         self.body = body
         self.n = len(body.blocks)
         self.succ = [term_succs(b['term']) for b in body.blocks]
+        # jump threading (exact): `L = const v; goto T` where T is an empty block `switchInt(L)` goes
+        # straight to T's target for v (the shape of `matches!(..)`, `a && b`, `if let .. else`).
+        self.threaded = {}     # (T, label) -> [B...]
+        for bi, blk in enumerate(body.blocks):
+            t = blk['term']
+            if t['k'] != 'goto':
+                continue
+            T = t['target']
+            tb = body.blocks[T]
+            tt = tb['term']
+            if tb['stmts'] or tt['k'] != 'switch' or tt['on']['k'] == 'const' or tt['on']['p']['proj']:
+                continue
+            L = tt['on']['p']['l']
+            val = None
+            for st in blk['stmts']:
+                if st['dst']['l'] == L:
+                    rv = st['rv']
+                    if not st['dst']['proj'] and rv['k'] == 'use' and rv['ops'][0]['k'] == 'const' and 'v' in rv['ops'][0]:
+                        val = rv['ops'][0]['v']
+                    else:
+                        val = None
+            if val is None:
+                continue
+            tgt, lab = tt['otherwise'], 'otherwise'
+            for v, b2 in tt['targets']:
+                if v == val:
+                    tgt, lab = b2, v
+            self.succ[bi] = [(tgt, None)]
+            self.threaded.setdefault((T, lab), []).append((bi, tgt))
         self.pred = [[] for _ in range(self.n)]
         for s, outs in enumerate(self.succ):
             for t, lab in outs:
